@@ -18,8 +18,10 @@ import (
 	"verif/internal/ref"
 )
 
-var topics = []string{"a", "a/b", "a/c", "b", "b/c", "a/b/c", "c"}
-var filters = []string{"a", "a/b", "a/+", "a/#", "+/b", "#", "+", "b/#", "+/+", "a/b/#", "+/c", "c"}
+// the universe includes names and filters with empty levels (a//b, a/b/, /a):
+// they are distinct topics and must be routed and delivered byte for byte
+var topics = []string{"a", "a/b", "a/c", "b", "b/c", "a/b/c", "c", "a//b", "a/b/", "/a"}
+var filters = []string{"a", "a/b", "a/+", "a/#", "+/b", "#", "+", "b/#", "+/+", "a/b/#", "+/c", "c", "a//b", "a/+/b", "a/b/+", "/+", "a/b/"}
 
 type step struct {
 	Kind   string // join leave sub unsub pub
